@@ -183,7 +183,7 @@ class Ctx:
             r.postcondition_failed = True
         if r.violated:
             i = out.find("Error:")
-            r.cex = out[i:i + 20000]
+            r.cex = out[i:]
         if coverage:
             r.coverage_zero = re.findall(r"^<(\w+) line .*>: 0:0$", out, re.M)
         errs = [l for l in out.splitlines() if l.startswith("Error:") or "Exception" in l]
